@@ -27,6 +27,9 @@
 
 extern void COTmrLock(void);
 extern void COTmrUnlock(void);
+#if defined(CO_VERIF) && defined(CO_VERIF_TMR_POOL_HOOK)
+extern void CoVerifTmrPool(CO_TMR *tmr);
+#endif
 
 /******************************************************************************
 * PRIVATE FUNCTION PROTOTYPES
@@ -406,6 +409,9 @@ static void COTmrReset(CO_TMR *tmr)
         tp             = tp->Next;
         id++;
     }
+#if defined(CO_VERIF) && defined(CO_VERIF_TMR_POOL_HOOK)
+    CoVerifTmrPool(tmr);
+#endif
 }
 
 static CO_TMR_TIME *COTmrInsert(CO_TMR *tmr, uint32_t dTnew, CO_TMR_ACTION *action)
